@@ -163,6 +163,12 @@ fn gen_file(r: &mut Rng, small: bool) -> String {
         };
         let original = g.lines[pick].clone();
         g.lines[pick].text = corrupt(r, &original.text, original.sec);
+        let mut pick = pick;
+        if r.chance(1, 3) {
+            // the rejected record is a *repetition* of an accepted one: nothing the accepted line did may be undone
+            g.lines.insert(pick, original.clone());
+            pick += 1;
+        }
         let mut at = pick + 1;
         if r.chance(2, 3) {
             // observer 1: the original valid record right after the corrupted one
